@@ -207,6 +207,9 @@ func init() {
 		{Worlds: []string{"stake"}, Label: "stake+ff", Quick: b(1, 1, 3), Thorough: b(2, 2, 3), EnvFilter: c16FfSchedule, MenuFilter: c16LeavingOnly},
 		{Worlds: []string{"stakepending"}, Quick: b(1, 1, 4), Thorough: b(2, 2, 4)},
 		{Worlds: []string{"stake6"}, Quick: b(1, 1, 2), Thorough: b(2, 2, 3)},
+		// wait-listed stakes taken out by unbond / move (to a candidate, to a key that is not one), with maturity by fast-forward
+		{Worlds: []string{"stakewait"}, Quick: b(2, 2, 2), Thorough: b(3, 2, 3)},
+		{Worlds: []string{"stakewait"}, Label: "stakewait+ff", Quick: b(1, 1, 3), Thorough: b(2, 2, 3), EnvFilter: c16FfSchedule},
 		// byzantine unbonding: evidence in block 1 (with the pending funds of the genesis), maturity −1 / 0 / +1 after the unbond period
 		{Worlds: []string{"stakepending"}, Label: "stakepending+evidence", Quick: b(1, 1, 3), Thorough: b(2, 2, 3), EnvFilter: c16ByzSchedule, MenuFilter: c16FirstBlockOnly},
 		// 101 candidates; a move (in the genesis) towards the lowest one matures at block 3, after the boundary at block 2
